@@ -169,7 +169,7 @@ class ServiceContext(ImpExp):
         else:
             self.issuer = self.provider_info.get("issuer", "")
 
-        self.clock_skew = config.get("clock_skew", 15)
+        self.clock_skew = config.conf.get("clock_skew", 15)
 
         _seed = config.get("hash_seed", rndstr(32))
         self.hash_seed = as_bytes(_seed)
